@@ -71,7 +71,8 @@ class Ctx:
         key = "harness_release" if release else "harness"
         pool = implrun.HarnessPool(self.bins[key])
         t0 = Timer()
-        r = pool.map(calls, timeout=timeout)
+        self._harness_batches = getattr(self, "_harness_batches", 0) + 1
+        r = pool.map(calls, timeout=timeout, order_seed=(self.seed * 7919 + self._harness_batches))
         log("   harness: %d calls in %.1fs" % (len(calls), t0.s()))
         return r
 
